@@ -4,6 +4,7 @@ import Mathlib.Logic.Function.Iterate
 import Mathlib.Tactic.Ring
 import Mathlib.Tactic.Linarith
 import Mathlib.Tactic.FieldSimp
+import Mathlib.Algebra.Order.BigOperators.Group.Finset
 /-!
 Newton's method on an increasing concave function, in any linearly ordered field (no analysis): with
 
@@ -108,5 +109,39 @@ theorem exists_small_step [Archimedean α] (H : Concave g d a) (hρ : a ≤ ρ) 
   have h2 := (iterate_mono H hρ h0 hx hxρ m).2.1
   rw [nsmul_eq_mul] at hm
   linarith
+
+
+/-- a nondecreasing sequence bounded above has an increment `≤ tol` (Archimedean field) -/
+theorem exists_small_increment [Archimedean α] (s : ℕ → α) (B : α) (hmono : ∀ k, s k ≤ s (k + 1))
+    (hb : ∀ k, s k ≤ B) {tol : α} (htol : 0 < tol) : ∃ k, s (k + 1) - s k ≤ tol := by
+  by_contra hne
+  have hbig : ∀ k, tol < s (k + 1) - s k := fun k => not_le.1 fun h => hne ⟨k, h⟩
+  have hlin : ∀ m : ℕ, s 0 + m * tol ≤ s m := by
+    intro m
+    induction m with
+    | zero => simp
+    | succ m ih =>
+      have := hbig m
+      push_cast
+      linarith
+  obtain ⟨m, hm⟩ := Archimedean.arch (B - s 0 + tol) htol
+  have h1 := hlin m
+  have h2 := hb m
+  rw [nsmul_eq_mul] at hm
+  linarith
+
+/-- finitely many nondecreasing bounded sequences have a common index at which ALL increments are `≤ tol`
+(the vectorised stopping test `not np.any(abs(r - rold) > tol)`) -/
+theorem exists_small_increment_all [Archimedean α] {ι : Type} (J : Finset ι) (x : ι → ℕ → α) (B : ι → α)
+    (hmono : ∀ j ∈ J, ∀ k, x j k ≤ x j (k + 1)) (hb : ∀ j ∈ J, ∀ k, x j k ≤ B j) {tol : α}
+    (htol : 0 < tol) : ∃ k, ∀ j ∈ J, x j (k + 1) - x j k ≤ tol := by
+  obtain ⟨k, hk⟩ := exists_small_increment (fun k => ∑ j ∈ J, x j k) (∑ j ∈ J, B j)
+    (fun k => Finset.sum_le_sum fun j hj => hmono j hj k)
+    (fun k => Finset.sum_le_sum fun j hj => hb j hj k) htol
+  refine ⟨k, fun j hj => ?_⟩
+  have hsum : ∑ i ∈ J, (x i (k + 1) - x i k) ≤ tol := by
+    rw [Finset.sum_sub_distrib]; exact hk
+  exact (Finset.single_le_sum (f := fun i => x i (k + 1) - x i k)
+    (fun i hi => sub_nonneg.2 (hmono i hi k)) hj).trans hsum
 
 end PyYetiVerif.KFactor.Newton
